@@ -40,6 +40,8 @@
 #include <QSslSocket>
 #include <QTcpServer>
 #include <QThread>
+#include <QTimer>
+#include <QTimerEvent>
 #include <QUuid>
 #include <QXmlStreamReader>
 
@@ -85,7 +87,7 @@ struct Cfg {
     int token = 0;        // FAST: 0 nothing, 1 user agent + HT token, 2 user agent only
     bool nsPlain = false; // XEP-0078 preference plain instead of digest
     bool inactive = false; // client state indication: inactive before connecting
-    int ka = 0;            // keep-alive ping interval in seconds (0 = off); timers are outside the Lean model, see timerScenario()
+    int ka = 0;            // keep-alive pings: 0 off, 1 on (interval one hour, the op `tick` fires the timer), 2 on with a real interval of 1 s
     std::string str() const
     {
         char b[128];
@@ -102,7 +104,7 @@ static QXmppConfiguration makeConfig(const Cfg &c, quint16 port)
     cfg.setHost("127.0.0.1");
     cfg.setPort(port);
     cfg.setAutoReconnectionEnabled(false);
-    cfg.setKeepAliveInterval(c.ka);
+    cfg.setKeepAliveInterval(c.ka == 0 ? 0 : c.ka == 2 ? 1 : 3600);   // ka=1: an hour, fired by the op `tick`; ka=2: one real second
     cfg.setKeepAliveTimeout(0);
     cfg.setIgnoreSslErrors(true);
     cfg.setStreamSecurityMode(c.tls == 0 ? QXmppConfiguration::TLSDisabled : c.tls == 1 ? QXmppConfiguration::TLSEnabled : QXmppConfiguration::TLSRequired);
@@ -204,6 +206,7 @@ static std::string classify(const QString &x)
         if (type == "error") return "IqReply:error";
         if (type == "result") return "IqReply:result";
         if (has("jabber:iq:roster")) return "IqRequest:roster";
+        if (has("urn:xmpp:ping")) return "IqRequest:ping";
         return "IqRequest:other";
     }
     if (x.startsWith("<presence")) return "Presence";
@@ -327,7 +330,7 @@ struct SentRec { std::string kind; bool enc, conn; std::string secret; QString x
 struct World {
     Cfg cfg;
     std::unique_ptr<TestClient> client;
-    Server srvA, srvB;        // B is the see-other-host target
+    Server srvA, srvB, srvC;  // B is the see-other-host target, C the `location` of <enabled/> (XEP-0198 resume address)
     long long act = 0;
     std::vector<std::string> events;        // since the last op
     std::vector<SentRec> sent;              // whole experiment
@@ -339,10 +342,11 @@ struct World {
     QStringList outstandingIds;        // the application's own requests still waiting for an answer
     long long settleTimeouts = 0;
     bool verbose = false;
+    bool enabledLoc = false;           // script view: the last <enabled/> the server sent named a resume location
 
     World()
     {
-        for (Server *s : { &srvA, &srvB }) {
+        for (Server *s : { &srvA, &srvB, &srvC }) {
             s->activity = [this]() { act++; };
             if (!s->listen(QHostAddress::LocalHost, 0)) { fprintf(stderr, "harness: cannot listen\n"); exit(3); }
         }
@@ -353,16 +357,18 @@ struct World {
     std::shared_ptr<Conn> conn()
     {
         // the most recently accepted connection on either listener
-        std::shared_ptr<Conn> a = srvA.cur(), b = srvB.cur();
-        if (!a) return b;
-        if (!b) return a;
-        return seqOf[a.get()] > seqOf[b.get()] ? a : b;
+        std::shared_ptr<Conn> best;
+        for (Server *s : { &srvA, &srvB, &srvC }) {
+            auto k = s->cur();
+            if (k && (!best || seqOf[k.get()] > seqOf[best.get()])) best = k;
+        }
+        return best;
     }
     std::map<Conn *, int> seqOf;
     int connSeq = 0;
     void noteConns()
     {
-        for (Server *s : { &srvA, &srvB })
+        for (Server *s : { &srvA, &srvB, &srvC })
             for (auto &c : s->conns)
                 if (!seqOf.count(c.get())) seqOf[c.get()] = ++connSeq;
     }
@@ -370,9 +376,10 @@ struct World {
     void newClient(const Cfg &c)
     {
         cfg = c;
+        enabledLoc = false;
         client.reset();
         // drop old server connections
-        for (Server *s : { &srvA, &srvB }) {
+        for (Server *s : { &srvA, &srvB, &srvC }) {
             for (auto &k : s->conns) { k->sock->disconnect(); k->sock->abort(); k->sock->deleteLater(); }
             s->conns.clear();
         }
@@ -462,7 +469,7 @@ struct World {
             transitional = false;
             auto *cs = client->strm()->socket();
             bool pend = pending(cs);
-            for (Server *s : { &srvA, &srvB })
+            for (Server *s : { &srvA, &srvB, &srvC })
                 for (auto &c : s->conns)
                     if (!c->closed) {
                         if (pending(c->sock)) pend = true;
@@ -543,13 +550,23 @@ struct World {
         return ("v=" + sig.toBase64()).toBase64();
     }
 
+    // which listener received the current / last connection: a configured host, b see-other-host address, c resume location
+    char targetLetter()
+    {
+        auto k = conn();
+        if (!k) return 'a';
+        for (auto &x : srvB.conns) if (x == k) return 'b';
+        for (auto &x : srvC.conns) if (x == k) return 'c';
+        return 'a';
+    }
+
     std::string stateStr()
     {
         auto st = client->state();
         std::string s = st == QXmppClient::ConnectedState ? "connected" : st == QXmppClient::ConnectingState ? "connecting" : "disconnected";
         char b[96];
-        snprintf(b, sizeof b, "st=%s ic=%d au=%d enc=%d", s.c_str(), client->isConnected() ? 1 : 0, client->isAuthenticated() ? 1 : 0,
-                 (client->strm()->socket()->isEncrypted() && client->strm()->socket()->state() == QAbstractSocket::ConnectedState) ? 1 : 0);
+        snprintf(b, sizeof b, "st=%s ic=%d au=%d enc=%d tg=%c", s.c_str(), client->isConnected() ? 1 : 0, client->isAuthenticated() ? 1 : 0,
+                 (client->strm()->socket()->isEncrypted() && client->strm()->socket()->state() == QAbstractSocket::ConnectedState) ? 1 : 0, targetLetter());
         return b;
     }
 
@@ -673,7 +690,7 @@ struct Runner {
                 if (k) order.push_back(k);
                 {
                     std::vector<std::pair<int, std::shared_ptr<Conn>>> older;
-                    for (Server *sv : { &c.srvA, &c.srvB })
+                    for (Server *sv : { &c.srvA, &c.srvB, &c.srvC })
                         for (auto &x : sv->conns)
                             if (x != k) older.push_back({ c.seqOf[x.get()], x });
                     std::sort(older.begin(), older.end(), [](auto &a, auto &b) { return a.first > b.first; });
@@ -731,7 +748,11 @@ struct Runner {
             else if (k == "nojid") c.srvSend("<iq type='result' id='" + id + "'><bind xmlns='urn:ietf:params:xml:ns:xmpp-bind'/></iq>");
             else if (k == "err") c.srvSend("<iq type='error' id='" + id + "'><bind xmlns='urn:ietf:params:xml:ns:xmpp-bind'/><error type='cancel'><conflict xmlns='urn:ietf:params:xml:ns:xmpp-stanzas'/></error></iq>");
             else c.srvSend("<iq type='result' id='wrong-id'><bind xmlns='urn:ietf:params:xml:ns:xmpp-bind'><jid>a@b/c</jid></bind></iq>");
+        } else if (op == "smenabledat") {
+            c.enabledLoc = true;
+            c.srvSend("<enabled xmlns='urn:xmpp:sm:3' id='smid1' resume='true' location='127.0.0.1:" + QByteArray::number(c.srvC.serverPort()) + "'/>");
         } else if (op == "smenabled") {
+            c.enabledLoc = false;
             c.srvSend(t.value(1) == "1" ? "<enabled xmlns='urn:xmpp:sm:3' id='smid1' resume='true'/>" : "<enabled xmlns='urn:xmpp:sm:3' id='smid1'/>");
         } else if (op == "smfailed") {
             c.srvSend("<failed xmlns='urn:xmpp:sm:3'><item-not-found xmlns='urn:ietf:params:xml:ns:xmpp-stanzas'/></failed>");
@@ -781,7 +802,15 @@ struct Runner {
                 k->closed = true;
             }
         } else if (op == "tick") {
-            // 1.4 s of wall-clock time pass (only used with ka=1; not an op of the Lean model)
+            // the keep-alive interval elapses: every running periodic timer of the outgoing client (the ping timer; configured to one
+            // hour so that real time never fires it) gets its timer event now
+            for (QTimer *tm : c.client->strm()->findChildren<QTimer *>(QString(), Qt::FindDirectChildrenOnly))
+                if (tm->isActive() && !tm->isSingleShot()) {
+                    QTimerEvent ev(tm->timerId());
+                    QCoreApplication::sendEvent(tm, &ev);
+                }
+        } else if (op == "wait") {
+            // 1.4 s of wall-clock time pass (used with ka=2 = real interval of 1 s; not an op of the Lean model)
             QElapsedTimer tt; tt.start();
             while (tt.elapsed() < 1400) QCoreApplication::processEvents(QEventLoop::AllEvents, 50);
         } else if (op == "ws") {
@@ -853,7 +882,7 @@ static int runManual(const std::string &cfgStr, const std::string &script)
         printf("%s\t%s\n", o.c_str(), obs.c_str());
         fflush(stdout);
     }
-    for (Server *s : { &r.w.srvA, &r.w.srvB })
+    for (Server *s : { &r.w.srvA, &r.w.srvB, &r.w.srvC })
         for (auto &c : s->conns)
             printf("conn %d on %s: plain=%d bytes secure=%d bytes tlsDone=%d\n  PLAIN: %s\n", c->id, s == &r.w.srvA ? "A" : "B", int(c->plain.size()), int(c->secure.size()), c->tlsDone,
                    c->plain.left(1500).constData());
@@ -1001,7 +1030,7 @@ static void oracleC04(Session &s)
     if (s.cfg.tls != 2) return;
     std::set<std::string> reported;
     std::vector<std::string> serverView;
-    for (Server *srv : { &w.srvA, &w.srvB })
+    for (Server *srv : { &w.srvA, &w.srvB, &w.srvC })
         for (auto &c : srv->conns) {
             for (const QString &el : splitPlain(c->plain)) {
                 std::string k = classify(el);
@@ -1016,7 +1045,7 @@ static void oracleC04(Session &s)
                     if (k.rfind("IqReply", 0) == 0 && c->sawIqRequest) cause = "answer-to-iq-request";
                     if (k.rfind("IqReply", 0) == 0 && c->sawForeignIq) cause = "answer-to-foreign-namespace-iq";
                     if (k == "SmAck" && c->sawSmR) cause = "answer-to-sm-request";
-                    if (s.cfg.ka && (k.rfind("IqRequest", 0) == 0 || k == "SmReq")) cause = "keepalive-timer-after-redirect";
+                    if (s.cfg.ka && (k == "IqRequest:ping" || k == "SmReq")) cause = "keepalive-timer";
                     if (k == "SmReq" && c->sawForeignIq) cause = "with-answer-to-foreign-namespace-iq";
                     std::string key = "C04:cleartext:" + k + ":" + cause;
                     if (!reported.count(key)) { reported.insert(key); fail(key, s.replay()); }
@@ -1044,6 +1073,7 @@ struct Policy {
     int sm = 0;             // 0 none, 1 offered, <enabled/> without resume, 2 offered, resumable
     bool resumeOk = true;   // answer <resume/> with <resumed/> (else <failed/>)
     bool csi = false;
+    bool loc = false;       // <enabled resume='true' location='…'/>: the server names a preferred address (listener C) for resuming
     bool pipeline = false;  // the stream header and the stream features arrive in ONE segment (one read on the client side)
     int redirectAt = -1;    // k >= 0: send see-other-host instead of the (k+1)-th server element; -2: once the session is established
 };
@@ -1097,7 +1127,7 @@ struct Conforming {
             return "success2 " + std::to_string(b) + " " + std::to_string(r) + " 0 1";
         }
         if (starts("Bind")) { boundNow = true; return "bindres ok"; }
-        if (starts("SmEnable")) { resumableNow = p.sm == 2; return p.sm == 2 ? "smenabled 1" : "smenabled 0"; }
+        if (starts("SmEnable")) { resumableNow = p.sm == 2; return p.sm == 2 ? (p.loc ? "smenabledat" : "smenabled 1") : "smenabled 0"; }
         if (starts("SmResume")) { if (p.resumeOk) { resumableNow = true; resumedNow = true; } return p.resumeOk ? "smresumed" : "smfailed"; }
         if (starts("NonSaslQuery")) return "fields 1 1";
         if (starts("NonSaslAuth")) { authed = true; boundNow = true; return "authres 1"; }   // XEP-0078 binds the resource with the login
@@ -1124,6 +1154,8 @@ static std::vector<Policy> policies()
     add("tls-redirect", true, 'p', 0, true, false, 4);
     add("redirect-in-session", false, 'p', 0, true, false, -2);
     add("redirect-in-session-smr", false, 'p', 2, true, false, -2);
+    add("sasl-bind-smr-loc", false, 'p', 2, true, false, -1); v.back().loc = true;
+    add("tls-scram-bind-smr-loc", true, 's', 2, true, true, -1); v.back().loc = true;
     add("sasl-bind-smr-pipelined", false, 'p', 2, true, true, -1); v.back().pipeline = true;
     add("tls-sasl2-bind2-pipelined", true, '2', 2, true, true, -1); v.back().pipeline = true;
     return v;
@@ -1151,7 +1183,20 @@ static AttemptResult runAttempt(Session &s, const Policy &p, int cut, bool sendI
     Conforming srv; srv.p = p;
     int connectedBefore = w.connectedSignals;
     size_t sentFrom = w.sent.size();
-    if (!alreadyOpen) s.op("connect");   // alreadyOpen: the client has opened the connection by itself (see-other-host)
+    if (!alreadyOpen) {   // alreadyOpen: the client has opened the connection by itself (see-other-host)
+        bool wasDisconnected = w.client->state() == QXmppClient::DisconnectedState;
+        char expect = (resumable && w.enabledLoc) ? 'c' : 'a';
+        s.op("connect");
+        // oracle (script view only): the resume location is for resuming THAT stream - used iff the client can still resume the stream
+        // whose <enabled/> named it; otherwise the attempt goes to the configured host
+        if (wasDisconnected) {
+            char got = w.targetLetter();
+            if (got == 'c' && expect == 'a')
+                fail(resumable ? "C10:next-attempt-targets-stale-resume-location" : "C10:next-attempt-targets-resume-location-of-non-resumable-stream", s.replay());
+            else if (got != expect) fail("C10:resume-location-not-used", s.replay());
+            else oraclePass()++;
+        }
+    }
     bool newStream = true;
     size_t bind2Idx = w.sessionBind2Used.size();
     auto negotiationOver = [&]() {
@@ -1270,6 +1315,12 @@ static void exploreC10(Runner &r, Rng &rng, bool thorough)
     // expect: 'd' the client must be disconnected by itself; 'c' cut with drop afterwards; 'r' cut with rst; 'u' must stay up (then cut); 'o' the client
     // opens the next connection by itself (see-other-host), continue there
     const std::vector<Incident> incidents = {
+        { "loc-then-error-close", "sasl-bind-smr-loc", -1, { "errclose" }, 0, 'd', "sasl-bind-smr" },
+        { "loc-then-stream-close", "sasl-bind-smr-loc", -1, { "close" }, 0, 'd', "sasl-bind-smr-loc" },
+        { "loc-then-unexpected-element", "sasl-bind-smr-loc", -1, { "proceed 1" }, 0, 'd', "sasl-bind" },
+        { "loc-then-cut", "sasl-bind-smr-loc", -1, {}, 0, 'c', "sasl-bind-smr" },
+        { "loc-then-rst-tls", "tls-scram-bind-smr-loc", -1, {}, 3, 'r', "tls-scram-bind-smr-loc" },
+        { "loc-then-error-close-tls", "tls-scram-bind-smr-loc", -1, { "errclose" }, 3, 'd', "tls-scram-bind-smr-loc" },
         { "ws-in-session", "sasl-bind", -1, { "ws" }, 0, 'u', "sasl-bind" },
         { "ws-in-session-smr", "sasl-bind-smr", -1, { "ws" }, 0, 'u', "sasl-bind-smr" },
         { "auth-failure", nullptr, 0, { "connect", "hdr 1 1", "feat mp", "failure" }, 0, 'd', "sasl-bind" },
@@ -1337,6 +1388,20 @@ static void exploreC10(Runner &r, Rng &rng, bool thorough)
             stat("c10:incident-runs");
         });
     }
+    // (0a') a resume location outlives its stream: resumable session with location, orderly end, new resumable session WITHOUT
+    // location on the configured host, cut - the next attempt must go to the configured host again
+    for (int ci = 0; ci < 2; ci++)
+        experiment(r.w.settleTimeouts, nullptr, [&]() {
+            Session s(r, cfgs[size_t(ci)]);
+            bool resumable = false;
+            runAttempt(s, byName("sasl-bind-smr-loc"), -1, true, resumable);
+            s.op("errclose");
+            resumable = false;
+            runAttempt(s, byName("sasl-bind-smr"), -1, true, resumable);
+            cutAndCheck(s, resumable);
+            runAttempt(s, byName("sasl-bind-smr"), -1, false, resumable);
+            stat("c10:runs");
+        });
     // (0b) three consecutive connections with stream management: new resumable session + outstanding request, cut; <resume/> accepted,
     // cut again; <resume/> refused (the server must bind again) - for classic and inline (SASL2) resumption, all combinations
     auto triple = [&](const Policy &pa1, const Policy &pa2, const Policy &pb, int cfgIdx, int cut3, bool iq2) {
@@ -1461,7 +1526,7 @@ static const std::vector<std::string> &alphabetFull()
         "iqget version", "iqget disco", "iqget unknown", "iqset", "iqresult pending", "iqresult stray", "message", "presence sub", "presence avail",
         "streamerror", "redirect", "close", "drop", "sendiq", "connect",
         "xel f iqget-version", "xel e iqget-version", "xel s iqget-version", "xel f iqget-unknown", "xel s iqset", "xel e iqresult-pending",
-        "xel f message", "xel s presence", "smr", "sma", "ws", "partial", "errclose", "redirectclose", "rst",
+        "xel f message", "xel s presence", "smr", "sma", "ws", "partial", "errclose", "redirectclose", "rst", "tick", "tick", "smenabledat",
         "seg hdr 1 1 + feat t1 mp a1 b1", "seg hdr 1 1 + feat t0 mp a1", "seg hdr 1 1 + iqget version", "seg hdr 1 1 + xel f iqget-version",
         "seg hdr 1 1 + feat t0 b1 s1 c1",
     };
@@ -1518,19 +1583,72 @@ static void exploreC04(Runner &r, Rng &rng, bool thorough)
     runC04Script(r, cfgs[0], { "hdr 0 1", "fields 1 1" });
     runC04Script(r, cfgs[0], { "hdr 1 1", "iqget version" });
     runC04Script(r, cfgs[0], { "hdr 1 1", "feat t0 mp a1" });
+    // time as an op: keep-alive on (interval one hour; `tick` delivers the timer event of every running periodic timer of the outgoing
+    // client = "the interval elapses"). The server stalls at EVERY point of every conforming flow (two intervals), then once more inside
+    // the session; with TLS required nothing but stream open/starttls/stream close may appear on the clear link (oracleC04)
+    {
+        auto pols = policies();
+        for (auto &p : pols) {
+            if (p.redirectAt != -1) continue;
+            for (int tlsMode = 1; tlsMode <= 2; tlsMode++) {
+                if (tlsMode == 2 && !p.tls) continue;
+                for (int stallAt = 0; stallAt < 14; stallAt++) {
+                    bool stalled = false;
+                    experiment(r.w.settleTimeouts, nullptr, [&]() {
+                        stalled = false;
+                        Cfg c; c.tls = tlsMode; c.plainOk = true; c.ka = 1;
+                        Session s(r, c);
+                        World &w = r.w;
+                        Conforming srv; srv.p = p;
+                        size_t sentFrom = w.sent.size();
+                        s.op("connect");
+                        bool newStream = true;
+                        int said = 0;
+                        for (int guard = 0; guard < 40; guard++) {
+                            if (said == stallAt && !stalled) { s.op("tick"); s.op("tick"); stalled = true; }
+                            std::string last = lastRequest(w, sentFrom);
+                            std::string o = srv.next(last, newStream || last == "StreamOpen");
+                            if (o.empty()) break;
+                            sentFrom = w.sent.size();
+                            newStream = false;
+                            said++;
+                            s.op(o);
+                        }
+                        s.op("tick");
+                        oracleC04(s);
+                        stat("c04:stall-scenarios");
+                    });
+                    if (!stalled) break;
+                }
+            }
+        }
+        // the timer across a see-other-host: inside a session (without / with stream management) and before the session opens
+        for (int variant = 0; variant < 3; variant++)
+            experiment(r.w.settleTimeouts, nullptr, [&]() {
+                Cfg c = cfgs[1]; c.ka = 1;
+                Session s(r, c);
+                std::vector<std::string> pre = { "connect", "hdr 1 1", "feat t1", "tick", "proceed 1", "hdr 1 1", "feat mp", "success 1", "hdr 1 1", variant == 1 ? "feat b1 s1" : "feat b1", "bindres ok" };
+                if (variant == 1) pre.push_back("smenabled 1");
+                if (variant == 2) pre = { "connect", "hdr 1 1", "feat t1", "proceed 1", "hdr 1 1", "feat t0 zp200", "success2 2 0 0 1" };
+                for (auto &o : pre) s.op(o);
+                for (auto o : { "tick", "redirect", "tick", "hdr 1 1", "tick", "feat t1", "tick" }) s.op(o);
+                oracleC04(s);
+                stat("c04:stall-scenarios");
+            });
+    }
     // timers (outside the Lean model: the time that passes is not an op, only the oracle judges): keep-alive pings switched on, time
     // passes before TLS on a first connection and on the connection opened after a see-other-host in an established session
     for (int variant = 0; variant < 3; variant++)
         experiment(r.w.settleTimeouts, nullptr, [&]() {
-            Cfg c = cfgs[1]; c.ka = 1;
+            Cfg c = cfgs[1]; c.ka = 2;
             Session s(r, c);
             std::vector<std::string> pre = { "connect", "hdr 1 1" };
             if (variant >= 1) pre = { "connect", "hdr 1 1", "feat t1", "proceed 1", "hdr 1 1", "feat mp", "success 1", "hdr 1 1", variant == 1 ? "feat b1" : "feat b1 s1", "bindres ok" };
             if (variant == 2) pre.push_back("smenabled 1");
             if (variant >= 1) { pre.push_back("redirect"); pre.push_back("hdr 1 1"); }
             for (auto &o : pre) s.op(o);
-            s.ops.push_back("tick");
-            std::string obs = r.apply("tick");
+            s.ops.push_back("wait");
+            std::string obs = r.apply("wait");
             if (obs.rfind("-|", 0) != 0) fail("C04:timer-writes-before-tls", s.replay());
             else oraclePass()++;
             oracleC04(s);
@@ -1590,6 +1708,7 @@ static void exploreC04(Runner &r, Rng &rng, bool thorough)
         c.sasl2 = rng.below(4) != 0; c.sasl = rng.below(4) != 0; c.nonsasl = rng.below(3) != 0;
         c.plainOk = rng.coin(); c.nsPlain = rng.coin(); c.inactive = rng.below(4) == 0;
         int tk = int(rng.below(4)); c.token = tk == 3 ? 0 : tk;
+        c.ka = rng.coin() ? 1 : 0;
         Session s(r, c);
         s.op("connect");
         Conforming srv; srv.p = pols[rng.below(uint32_t(pols.size()))];
